@@ -17,7 +17,7 @@ RULE = ("for every prime accepted by fp_param_set/ep_param_set in the build: dir
         "2^k, 2^k-1, p-1, has zero / all-ones digits) through every unary function, engineered pairs (x,-x), "
         "(x,-x+-1 raw), (x,x), (x,0), (x,1), (x,p-1 raw) through every binary function, every inversion / symbol / "
         "root / exponentiation variant with exponents 0,1,2,p-1,p,p+1,negative,>p,sparse, then random cases drawn "
-        "from the same classes plus squares, non-squares, cubes; every output compared with Python integers mod p "
+        "from the same classes plus squares, non-squares, cubes, small fractions a/b; every output compared with Python integers mod p "
         "AND required to have raw digits < p; inputs that are not outputs must be unchanged; all alias patterns; a "
         "case is non-trivial when an operand is non-zero; distinct = distinct (function, class, prime, operands)")
 ASSUMPTIONS = ["Python's integers and pow(x, e, p) are the reference for Z/pZ",
@@ -131,6 +131,8 @@ class Field(object):
     def _special(self):
         p, W, bits = self.p, self.W, self.bits
         vals = [0, 1, 2, 3, p - 1, p - 2, (p - 1) // 2, (p + 1) // 2]
+        # small fractions a/b: slow-converging inputs of every gcd-style inversion / symbol algorithm
+        vals += [3 * pow(2, -1, p) % p, 7 * pow(2, -1, p) % p, pow(3, -1, p), 5 * pow(7, -1, p) % p, -9 * pow(6, -1, p) % p]
         for k in (1, 31, 32, 63, 64, 65, 127, 128, 191, bits - 2, bits - 1):
             if (1 << k) < p:
                 vals += [1 << k, p - (1 << k)]
@@ -189,6 +191,10 @@ class Field(object):
             return self.raw_of(pow(rng.randrange(1, p), 3, p) * self.cnr)
         if c == 11:
             return rng.randrange(1 << rng.randrange(1, self.bits)) % p        # short images
+        if c == 12:
+            num = rng.randrange(1, 1 << rng.choice([3, 8, 16, 32]))
+            den = rng.randrange(1, 1 << rng.choice([3, 8, 16, 32]))
+            return self.raw_of(rng.choice([-1, 1]) * num * pow(den, -1, p))       # small fractions
         return rng.randrange(p)
 
     def partner(self, ra):
@@ -208,6 +214,16 @@ class Field(object):
         return self.elem()
 
     # ---------------------------------------------------------------------------------------- classifiers
+    def small_fraction(self, x, bound=1 << 40):
+        """is x = a/b (mod p) with 0 < |a|, |b| < bound?  (rational reconstruction by the Euclidean algorithm)"""
+        if x == 0:
+            return False
+        r0, r1, t0, t1 = self.p, x, 0, 1
+        while r1 >= bound:
+            q = r0 // r1
+            r0, r1, t0, t1 = r1, r0 - q * r1, t1, t0 - q * t1
+        return r1 != 0 and abs(t1) < bound
+
     def cls_add(self, ra, rb):
         s = ra + rb
         if s >= self.Rr:
@@ -622,6 +638,8 @@ class Field(object):
         cls = {0: "zero", 1: "square", -1: "nonsquare"}[e]
         if e and ra < (1 << 64):
             cls += "|image-one-digit"
+        if self.small_fraction(x):
+            cls += "|small-fraction"
         for fn in (fns or self.SMB):
             if not self.has(fn):
                 continue
